@@ -84,6 +84,7 @@ type Exec struct {
 	covered  map[string]bool // clause labels reached on a feasible path
 	vacuity  []string
 	specErr  string
+	constrained map[string]bool // fresh call results that a branch has already tested on this run
 	lenView  *HeapView // heap view for len() of maps inside contract expressions (nil = current)
 }
 
@@ -375,6 +376,12 @@ func (x *Exec) run(st *State) {
 				continue
 			}
 			firstUnsat := false
+			// a branch on the fresh boolean result of a call without postcondition is feasible both ways
+			atom := strings.TrimSuffix(strings.TrimPrefix(ct.S, "(not "), ")")
+			skipFeas := strings.HasPrefix(strings.TrimPrefix(atom, "|"), "ret!") && !strings.ContainsAny(atom, " (") && !x.constrained[atom]
+			if skipFeas {
+				x.constrained[atom] = true
+			}
 			for k := 0; k < 2; k++ {
 				ck := ct
 				if k == 1 {
@@ -383,7 +390,7 @@ func (x *Exec) run(st *State) {
 				x.sess.Push()
 				x.assume(ck)
 				r := "sat"
-				if !(k == 1 && firstUnsat) {
+				if !(k == 1 && firstUnsat) && !skipFeas {
 					r = x.sess.Feasible()
 				}
 				if r == "unsat" {
